@@ -99,6 +99,16 @@ CLAIMED["C16"] = dict(
     technique="symbolic exploration of the real API calls with a global-state monitor (inductive invariant) and term-level comparison of outputs across A;B;A histories",
     ref="4/C16")
 
+CLAIMED["C05"] = dict(
+    text="Symbolic execution of molden._fix_molden_from_buggy_codes (shared by the Molden and Molekel readers) with compute_overlap, _is_normalized_properly and every _fix_* helper on one-centre bases of one-primitive shells (s, p, Cartesian d/f, pure d/f/g) encoded as standard / ORCA / PSI4<=1.0 / Turbomole / CFOUR 2.1 / unnormalised contractions / PSI4<=1.3.2 / corrupted; exponents symbolic for s and p shells (all reals in [0.2, 30]; the norm-test branches are decided by z3 on polynomial inequalities with sqrt auxiliaries), rational grid otherwise; obligations: a standard file takes the no-correction path, the warning names the correction, the returned basis and coefficients denote the true orbitals up to the resolution of the norm test, an unrepairable file raises LoadError.",
+    note="Multi-centre molecules and contracted shells through the cascade are outside (exp of symbolic distances in branch conditions); the vendor table is transcribed from the comments/issues quoted in molden.py (no independent public specification exists offline).",
+    ref="4/C05")
+CLAIMED["C07"] = dict(
+    text="(funnel) the real api.load_one/load_many run with the format module replaced by a nondeterministic stub (reads 0-2 lines, then returns valid / shape-inconsistent data, yields 0-2 frames, or raises one of 12 exception kinds; consumers exhaust or break-and-close): only LoadError escapes, its message names the file and the last line read, the file is closed. (parsers) the real readers of 28 fixture files of 24 formats run on tokenised text (every decimal number symbolic) under a fault model: nondeterministic end of file at every line boundary of the first 60 (thorough 400) lines, and one numeric field replaced by non-numeric / empty / absurdly large text: every path ends in LoadError naming the file or in an object with mutually consistent shapes, and the file is closed.",
+    note="Byte-offset truncation, binary garbage, multi-line mutations and the full 11 MB corpus are outside; termination only up to the step budget.",
+    technique="symbolic exploration of the real loaders under nondeterministic environment stubs (exception/EOF/corruption choices) with symbolic file numbers; obligations on outcome class, message and event trace",
+    ref="4/C07")
+
 NOT_YET = "check not built yet in this round (planned, see DESIGN.md section 4)"
 NA = {}
 
